@@ -30,7 +30,7 @@ def items(tier):
             out.append((sp, {"rule": "TSLACK", "max_time": F.seq_bound(sp) + 8}))
     for sp in fac:
         out.append((sp, {"rule": "TSLACK", "max_time": F.seq_bound(sp) + 8}))
-    for sp in F.id_namespace_specs() + F.sectioned_workplace_specs():
+    for sp in F.id_namespace_specs() + F.sectioned_workplace_specs() + F.shared_pinned_machine_specs():
         for rule in ("TSLACK", "SPT", "LPT"):
             out.append((sp, {"rule": rule, "max_time": F.seq_bound(sp) + 8}))
     return out
